@@ -217,7 +217,7 @@ def run(ctx):
                 if rng.random() < 0.4:
                     text, kind = R2.pr(core), "core_" + kind
                 else:
-                    text = SU.ps(f, rng, SU.choose_opts(f, rng))
+                    text = SU.ps(f, rng, SU.choose_opts(f, rng, kind))
                 if gname == "quote" and any(q[0] in ("forall", "exists") and q[4] and '"' in q[4][0] for q in R2.subformulas(core)):
                     meta["mexpr_quote"] = True
             st, v = ctx.guarded(judge, ctx, gname, g, m, text, kind.replace("core_", "") if kind.startswith("core_") else kind, skel, rng, meta, timeout=120)
